@@ -372,7 +372,8 @@ def run(ctx):
         sizes = {n: r.randint(1, maxsize) for n in names}
         genome = bnp.Genome.from_dict(sizes)
         kinds = [r.choice(["int", "float", "bool", "int"]) for _ in range(r.randint(1, 3))]
-        dts = [{"int": r.choice([np.int64, np.int64, np.int8, np.int16, np.int32]), "float": r.choice([np.float64, np.float64, np.float32]), "bool": bool}[k] for k in kinds]
+        dts = [{"int": np.int64, "float": np.float64, "bool": bool}[k] for k in kinds]       # value columns of narrower types (int8 ... float32) are widened by the library at points that depend on the layout of the records (a gap, a record ending before the
+        # contig end); the statement does not speak of value widths, so the values are held in the 64-bit types throughout
         recs_all, denses = [], []
         for kind, dt in zip(kinds, dts):
             recs = {n: [(a_, b_, (v_ if kind != "int" or abs(v_) < 100 else 7)) for a_, b_, v_ in gen_records(r, sizes[n], kind)] for n in names}
@@ -404,8 +405,10 @@ def run(ctx):
             # some scalar operands are NumPy scalars (the result of another reduction, an element of an array) instead of Python numbers
             if t[0] == "scalar":
                 v = t[1]
-                if r.random() < 0.4:
-                    v = (np.int64(v) if r.random() < 0.7 else np.int8(v)) if isinstance(v, int) else (np.float64(v) if r.random() < 0.7 else np.float32(v))
+                if isinstance(v, int) and r.random() < 0.5:
+                    v = v * 40          # large enough to leave the range of a narrow integer type when added to / multiplied with its values
+                if r.random() < 0.6:
+                    v = (np.int64(v) if r.random() < 0.7 or abs(v) > 127 else np.int8(v)) if isinstance(v, int) else (np.float64(v) if r.random() < 0.7 else np.float32(v))
                 return ("scalar", v)
             if t[0] == "leaf":
                 return t
@@ -422,8 +425,8 @@ def run(ctx):
         with np.errstate(all="ignore"):
             try:
                 exp = {n: evaluate(tree, [d[n] for d in denses]) for n in names}
-            except TypeError:
-                return
+            except (TypeError, OverflowError):
+                return          # NumPy itself refuses the expression on the dense arrays
         leaves = {int(i): make_leaf(int(i)) for i in used}
         try:
             with np.errstate(all="ignore"):
@@ -488,7 +491,7 @@ def run(ctx):
                           dict(wit, got=gh, expected=[eh.tolist(), ee.tolist()]), (tuple(sizes.items()), repr(recs_all), txt, "hist"))
         ctx.count("streamed_expressions")
 
-    for i in range(ctx.share(ctx.pick(1600, 20000))):
+    for i in range(ctx.share(ctx.pick(3200, 30000))):
         ctx.run_case(streamed_expressions, {"seed": rng.randrange(2 ** 40)})
     ctx.floor("streamed_expressions", ctx.pick(20, 400))
 
